@@ -19,6 +19,56 @@ type emuChan struct {
 	buf    []any
 	sendq  []*sendItem
 	closed bool
+	// tasks blocked in a plain receive / in a select with a receive case on this channel
+	recvWaiting, selRecvWaiting int
+}
+
+// pollForeign notices what code outside the instrumented packages did to the real channel (the
+// context package closing a Done channel): emulated channels never see real operations, so for them
+// this finds nothing.
+func (e *emuChan) pollForeign(ch any) {
+	if e.closed {
+		return
+	}
+	v := reflect.ValueOf(ch)
+	if v.Type().ChanDir()&reflect.RecvDir == 0 {
+		return
+	}
+	for {
+		x, ok := v.TryRecv()
+		if !ok && !x.IsValid() {
+			return // nothing there
+		}
+		if !ok {
+			e.closed = true
+			return
+		}
+		e.buf = append(e.buf, x.Interface())
+	}
+}
+
+func (e *emuChan) recvReady() bool { return len(e.buf) > 0 || len(e.sendq) > 0 || e.closed }
+
+// takeRecv performs a receive that recvReady promised.
+func (e *emuChan) takeRecv() (any, bool) {
+	if len(e.buf) > 0 {
+		v := e.buf[0]
+		e.buf = e.buf[1:]
+		if len(e.sendq) > 0 {
+			it := e.sendq[0]
+			e.sendq = e.sendq[1:]
+			it.taken = true
+			e.buf = append(e.buf, it.val)
+		}
+		return v, true
+	}
+	if len(e.sendq) > 0 {
+		it := e.sendq[0]
+		e.sendq = e.sendq[1:]
+		it.taken = true
+		return it.val, true
+	}
+	return nil, false
 }
 
 func (s *Sim) emu(ch any, capacity int) *emuChan {
@@ -85,27 +135,17 @@ func ChanRecv2[T any](ch <-chan T) (T, bool) {
 	}
 	e := s.emu(ch, cap(ch))
 	for {
-		if len(e.buf) > 0 {
-			v := e.buf[0]
-			e.buf = e.buf[1:]
-			if len(e.sendq) > 0 {
-				it := e.sendq[0]
-				e.sendq = e.sendq[1:]
-				it.taken = true
-				e.buf = append(e.buf, it.val)
+		e.pollForeign(ch)
+		if e.recvReady() {
+			v, ok := e.takeRecv()
+			if !ok {
+				return zero, false
 			}
 			return v.(T), true
 		}
-		if len(e.sendq) > 0 {
-			it := e.sendq[0]
-			e.sendq = e.sendq[1:]
-			it.taken = true
-			return it.val.(T), true
-		}
-		if e.closed {
-			return zero, false
-		}
-		s.Block("chan.recv", func() bool { return len(e.buf) > 0 || len(e.sendq) > 0 || e.closed })
+		e.recvWaiting++
+		s.Block("chan.recv", func() bool { e.pollForeign(ch); return e.recvReady() })
+		e.recvWaiting--
 		if s.ending {
 			return zero, false
 		}
@@ -159,4 +199,182 @@ func SetFinalizer(obj any, finalizer any) {
 		return
 	}
 	runtime.SetFinalizer(obj, finalizer)
+}
+
+// ChanLen is `len(ch)`.
+func ChanLen[T any](ch chan T) int {
+	s := S()
+	if s == nil || ch == nil {
+		return len(ch)
+	}
+	return len(s.emu(ch, cap(ch)).buf)
+}
+
+// Offer is a non-blocking send performed by the simulator itself (a timer firing): the value is
+// dropped when the buffer is full, as the runtime's timers do.
+func Offer[T any](s *Sim, ch chan T, v T) {
+	e := s.emu(ch, cap(ch))
+	if len(e.buf) < e.cap {
+		e.buf = append(e.buf, v)
+	}
+}
+
+// Drain empties the emulated buffer of ch (Timer.Stop/Reset semantics of Go >= 1.23).
+func Drain[T any](s *Sim, ch chan T) {
+	s.emu(ch, cap(ch)).buf = nil
+}
+
+// ---- select ----
+
+// SelCase is one communication clause of a rewritten select statement.
+type SelCase struct {
+	send bool
+	ch   any
+	capn int
+	val  any
+	null bool
+}
+
+// SelRecv is `case ... <-ch:`.
+func SelRecv[T any](ch <-chan T) SelCase { return SelCase{ch: ch, capn: cap(ch), null: ch == nil} }
+
+// SelSend is `case ch <- v:`.
+func SelSend[T any](ch chan<- T, v T) SelCase {
+	return SelCase{send: true, ch: ch, capn: cap(ch), val: v, null: ch == nil}
+}
+
+// Selected is the outcome of a select: the index of the clause that proceeded (-1: default).
+type Selected struct {
+	I  int
+	v  any
+	ok bool
+}
+
+// SelGot2 is the `v, ok` of the receive clause that proceeded.
+func SelGot2[T any](_ <-chan T, r *Selected) (T, bool) {
+	var zero T
+	if r.v == nil {
+		return zero, r.ok
+	}
+	return r.v.(T), r.ok
+}
+
+// SelGot is the value of the receive clause that proceeded.
+func SelGot[T any](ch <-chan T, r *Selected) T {
+	v, _ := SelGot2(ch, r)
+	return v
+}
+
+// Select is the rewritten select statement: among the clauses that can proceed one is chosen by the
+// tape (the language says "uniform pseudo-random"); with none and no default the task blocks.
+func Select(hasDefault bool, cases ...SelCase) *Selected {
+	s := S()
+	if s == nil {
+		return realSelect(hasDefault, cases)
+	}
+	if s.ending {
+		if !hasDefault {
+			runtime.Goexit() // the run is over: a clause-less outcome does not exist, the task just ends
+		}
+		return &Selected{I: -1}
+	}
+	s.Point(KSync, "select")
+	emus := make([]*emuChan, len(cases))
+	for i, c := range cases {
+		if !c.null {
+			emus[i] = s.emu(c.ch, c.capn)
+		}
+	}
+	ready := func() []int {
+		var r []int
+		for i, c := range cases {
+			e := emus[i]
+			if e == nil {
+				continue
+			}
+			if c.send {
+				if e.closed || len(e.buf) < e.cap || e.recvWaiting-len(e.sendq) > 0 {
+					r = append(r, i)
+				} else if e.cap == 0 && e.selRecvWaiting > 0 {
+					s.Unsupported("a select-send and a select-receive meet on an unbuffered channel")
+				}
+				continue
+			}
+			e.pollForeign(c.ch)
+			if e.recvReady() {
+				r = append(r, i)
+			}
+		}
+		return r
+	}
+	for {
+		r := ready()
+		if len(r) > 0 {
+			i := r[0]
+			if len(r) > 1 {
+				i = r[s.Tape.Choose(len(r), "select.clause")]
+			}
+			c, e := cases[i], emus[i]
+			if c.send {
+				if e.closed {
+					panic("send on closed channel")
+				}
+				if len(e.buf) < e.cap {
+					e.buf = append(e.buf, c.val)
+				} else {
+					e.sendq = append(e.sendq, &sendItem{val: c.val})
+				}
+				return &Selected{I: i}
+			}
+			v, ok := e.takeRecv()
+			return &Selected{I: i, v: v, ok: ok}
+		}
+		if hasDefault {
+			return &Selected{I: -1}
+		}
+		for i, c := range cases {
+			if emus[i] != nil && !c.send {
+				emus[i].selRecvWaiting++
+			}
+		}
+		s.Block("select", func() bool { return len(ready()) > 0 })
+		for i, c := range cases {
+			if emus[i] != nil && !c.send {
+				emus[i].selRecvWaiting--
+			}
+		}
+		if s.ending {
+			runtime.Goexit()
+		}
+	}
+}
+
+// realSelect runs the clauses on the real channels (instrumented code used outside a simulation).
+func realSelect(hasDefault bool, cases []SelCase) *Selected {
+	var rc []reflect.SelectCase
+	var idx []int
+	for i, c := range cases {
+		if c.null {
+			continue
+		}
+		if c.send {
+			rc = append(rc, reflect.SelectCase{Dir: reflect.SelectSend, Chan: reflect.ValueOf(c.ch), Send: reflect.ValueOf(c.val)})
+		} else {
+			rc = append(rc, reflect.SelectCase{Dir: reflect.SelectRecv, Chan: reflect.ValueOf(c.ch)})
+		}
+		idx = append(idx, i)
+	}
+	if hasDefault {
+		rc = append(rc, reflect.SelectCase{Dir: reflect.SelectDefault})
+		idx = append(idx, -1)
+	}
+	if len(rc) == 0 {
+		select {}
+	}
+	n, v, ok := reflect.Select(rc)
+	out := &Selected{I: idx[n], ok: ok}
+	if v.IsValid() {
+		out.v = v.Interface()
+	}
+	return out
 }
